@@ -204,6 +204,8 @@ Definition supplied_of (fs : fsys) (i : init_args) (ops0 : list op) : supplied :
     match has_op (fun o => match o with LoadRuntime => true | _ => false end)
                  (after_last (fun o => match o with SetRuntimePath _ => true | _ => false end) ops), rtp with
     | true, Some (stem, sfx) =>
+        if negb (mem sfx doc_suffixes) then (Node [], true)     (* no loader for that suffix *)
+        else
         match fs_get fs stem sfx with
         | Some (FData t) => (norm t, false)
         | Some FIOErr => (Node [], true)
